@@ -70,7 +70,7 @@ def functions(src):
         yield (nm.group(1) or nm.group(2)), src[i + 1:j - 1]
 
 
-ACQ = re.compile(r"(?<![\w>.])((?:this->)?\w+)(\s*\[\s*\w+\s*\])?\s*=\s*(?:\([^()]*\)\s*)?(malloc|MALLOC|tj3Init|fopen)\s*\(")
+ACQ = re.compile(r"(?<![\w>.])((?:this->)?\w+)(\s*\[\s*\w+\s*\])?\s*=\s*(?:\([^()]*\)\s*)?(malloc|MALLOC|calloc|realloc|strdup|tj3Init|fopen)\s*\(")
 CALL = re.compile(r"(?<![\w>.])(_?jpeg_\w+|jinit_\w+|jcopy_markers_\w+|jtransform_\w+|setCompDefaults|setDecompParameters|setDecodeDefaults)\s*\(|\(\*\s*\w+->[\w>\-]+\)\s*\(")
 NOFAIL = {"jpeg_abort_compress", "jpeg_abort_decompress", "jpeg_destroy_compress", "jpeg_destroy_decompress"}
 
@@ -149,7 +149,10 @@ for fname in ("src/turbojpeg.c", "src/turbojpeg-mp.c"):
             if not t:
                 sys.exit("%s: %s: no NULL test directly after the acquisition of '%s': ...%s" % (fname, name, v, " ".join(tail[:80].split())))
             ret = t.group(t.lastindex) == "return"
-            ev.append((m.start(), ("BAcquireRet %d" if ret else "BAcquire %d") % vars_.index(v)))
+            if m.group(3) == "realloc" and re.match(r"\s*" + re.escape(v) + r"\s*[\[,]", body[m.end():]):
+                ev.append((m.start(), "BRealloc %d" % vars_.index(v)))      # v = realloc(v, ..): a failure overwrites the only pointer
+            else:
+                ev.append((m.start(), ("BAcquireRet %d" if ret else "BAcquire %d") % vars_.index(v)))
             if m.group(3) in ("malloc", "MALLOC"):
                 sizes.append((name, v, " ".join(body[m.end():close - 1].split())))
             # the THROW that belongs to this NULL test is not a separate choice point
@@ -209,7 +212,7 @@ for fname in ("src/turbojpeg.c", "src/turbojpeg-mp.c"):
         baili = emit(cut, len(body))
         esc = [vars_.index(v) for v in vars_ if re.search(r"\breturn\s+" + re.escape(v) + r"\s*;", body[cut:])]
         own = [vars_.index(v) for v in vars_ if v.startswith("this->")]
-        nonm = sum(1 for m in acqs if m.group(3) not in ("malloc", "MALLOC"))
+        nonm = sum(1 for m in acqs if m.group(3) in ("tj3Init", "fopen"))
         progs.append((name, fname.split("/")[-1], vars_, bodyi, baili, esc, own, len(acqs), nonm))
 
 if len(progs) < 8:
